@@ -117,3 +117,26 @@ BF_VALID = {
     'P': lambda c, lq, uq, pc: not ((pc and c == 0) or (lq <= c <= uq)),
     'L': lambda c, lq, uq, pc: not (lq <= c <= uq),
 }
+
+
+# ---- attribute vocabulary -------------------------------------------------------------------------------------------------
+# The rules name the model's state by the attribute names of the pinned tree.  A tree that renames one of them consistently
+# (lec_targets -> lecturer_targets everywhere) is the same program; the loader binds the new name back to the one the rules use
+# by aligning, per class and method, the ORDER in which `self.<attr>` is first assigned with this table (loader.
+# canonical_attribute_names; nothing is renamed when the alignment is not a clean one-for-one replacement of a vanished name).
+ATTR_ORDER = {
+    'Model': {
+        '__init__': ['num_students', 'num_projects', 'num_lecturers', 'proj_lower_quotas', 'proj_upper_quotas', 'lec_lower_quotas', 'lec_targets', 'lec_upper_quotas',
+                     'proj_lecturers', 'pairs', 'info_string', 'pulp_status', 'time_limit', 'OPTIMAL_PULP_STATUS', 'NOTSOLVED_PULP_STATUS'],
+        'set_project_lists': ['project_lists'], 'set_lecturer_lists': ['lecturer_lists'], 'set_rank_lists': ['rank_lists'],
+        'pulp_setup': ['lec_overload', 'lec_underload', 'abs_lec_diff', 'project_closures'],
+    },
+    'Pair': {
+        '__init__': ['studentID', 'projectID', 'student_index', 'project_index', 'rank_student'],
+        'set_lecturer': ['lecturerID', 'lecturer_index'], 'set_lecturer_rank': ['rank_lecturer'], 'pulp_setup': ['lp_var', 'alpha_var', 'beta_var'],
+    },
+    'LP_Solver': {'__init__': ['model', 'instance_options', 'extra_constraints', 'optimisation_options', 'prob'], 'run': ['info_string', 'num_solves', 'solver']},
+    'Brute_force_solver': {'__init__': ['model', 'instance_options']},
+    'Solver': {'__init__': ['options_parser', 'model'], 'solve': ['solver']},
+    'Options_parser': {'parse': ['filename', 'instance_options', 'solver_options', 'extra_constraints', 'optimisation_options']},
+}
